@@ -26,12 +26,37 @@ class Out:
         return {"raised": f"{type(self.exc).__name__}: {str(self.exc)[:200]}"}
 
 
-def lib(f, *a, **k):
+RECORDER = None   # C19 sets this to a list: every guarded call's outcome is then recorded as comparable data
+
+
+def lib_uninitialised(f, *a, **k):
+    """lib() for calls whose returned *content* is unspecified (np.empty_like): only kind, lengths and dtype are recorded"""
+    return lib(f, *a, _strip_values=True, **k)
+
+
+def _strip(v):
+    if isinstance(v, dict):
+        return {k: _strip(x) for k, x in v.items() if k not in ("rows", "v")}
+    if isinstance(v, list):
+        return [_strip(x) for x in v]
+    return v
+
+
+def lib(f, *a, _strip_values=False, **k):
     """Run a library call; 'refused' = raised any Exception."""
     try:
-        return Out(True, f(*a, **k))
+        out = Out(True, f(*a, **k))
     except Exception as e:  # noqa: BLE001 - the property says 'refused with an error'
-        return Out(False, exc=e)
+        out = Out(False, exc=e)
+    if RECORDER is not None:
+        if out.ok:
+            try:
+                RECORDER.append(["ok", _strip(norm(out.value)) if _strip_values else norm(out.value)])
+            except Exception as e:  # noqa: BLE001 - a result that cannot be read back
+                RECORDER.append(["unreadable", type(e).__name__])
+        else:
+            RECORDER.append(["refused"])
+    return out
 
 
 def describe(v):
